@@ -126,9 +126,16 @@ JParseProblem(e, st) ==
                   glits |-> {<<x[1], x[2]>> : x \in Range(j.goal_lits)},
                   gcmps |-> {FormulaOfTree(x) : x \in Range(j.goal_cmps)}]
       adm(dv) == LET exp == ParseProblem_Exp(D, e.tree, dv)
-                 IN  IF isExc THEN ~exp.accept
-                     ELSE exp.accept /\ StJsonClean(j.init) /\ ProjEq(exp.proj, obsProj)
-      P == ProblemOfTree(e.tree)
+                 IN  IF exp.open THEN TRUE
+                     ELSE IF isExc THEN ~exp.accept
+                     ELSE exp.accept /\ StJsonClean(j.init)
+                          /\ ProjEq(exp.proj, IF exp.goalsFixed THEN obsProj ELSE [obsProj EXCEPT !.gcmps = exp.proj.gcmps])
+      P0 == ProblemOfTree(e.tree)
+      \* where the text leaves the initial value of a fluent open, later events
+      \* are judged against what was observed
+      P == IF P0.init.conflict /\ ~isExc
+           THEN [P0 EXCEPT !.init = [facts |-> obsProj.facts, fl |-> obsProj.fl, shapeOk |-> TRUE, conflict |-> TRUE]]
+           ELSE P0
       s2 == IF isExc THEN st
             ELSE Put(st, e.h, [kind |-> "problem", P |-> P, u |-> UniverseOf(D, P.objs)])
   IN  WithDevs(adm, IF isExc THEN "ParseProblem:rejected-well-formed" ELSE
